@@ -175,7 +175,9 @@ fn gen_body(r: &mut Rng, sc: &mut Scope, depth: usize, budget: &mut usize, calle
                 let d = sc.displayable();
                 match r.below(6) {
                     0 => Node::Expr(format!("{}.len()", r.pick(&["xs", "ws", "ps", "s"]))),
-                    1 => Node::Expr(r.pick(&["\"lit<&>\"", "42", "\"q\\\"uote\"", "\"\""]).to_string()),
+                    // string literals as expressions, also with escapes that *denote* a special character: the value, not
+                    // the source text, is what gets escaped
+                    1 => Node::Expr(r.pick(&["\"lit<&>\"", "42", "\"q\\\"uote\"", "\"\"", "\"Tom \\x26 Jerry\"", "\"1 \\u{3c} 2\"", "\"\\x22q\\x27\"", "\"a\\u{3E}b\\tc\""]).to_string()),
                     _ => Node::Expr(r.pick(&d).to_string()),
                 }
             }
